@@ -727,7 +727,10 @@ func run(dir string, seed uint64, tier string) error {
 		// sanitizeArchivePath after fix 566455e: containment is tested component-wise (filepath.Rel)
 		"P:a\nF:d\nR:../d2/x\n\n", "P:a\nF:\nR:x\n\n", "P:a\nF:.\nR:x\n\n", "P:a\nF:/\nR:x\n\n", "P:a\nF:/\nR:..\n\n", "P:a\nF:d\nR:.\n\n", "P:a\nF:d\nR:..\n\n",
 		"P:a\nF:d/e\nR:../x\n\n", "P:a\nF:..\nR:..\n\n", "P:a\nF:..\nR:x\n\n", "P:a\nF:../a\nR:../b\n\n", "P:a\nF:\nR:/x\n\n", "P:a\nF:\nR:\n\n", "P:a\nF:d//e/\nR:x//y\n\n",
-		"P:a\nF:/r\nR:../r2/x\n\n", "P:a\nF:d\nR:..x\n\n", "P:a\nF:d\nR:../d\n\n", "P:a\nF:d/..\nR:x\n\n", "P:a\nF:d/..\nR:../x\n\n"} {
+		"P:a\nF:/r\nR:../r2/x\n\n", "P:a\nF:d\nR:..x\n\n", "P:a\nF:d\nR:../d\n\n", "P:a\nF:d/..\nR:x\n\n", "P:a\nF:d/..\nR:../x\n\n",
+		// letters outside the switch are ignored; a repeated field overwrites, except an un-prefixed C: after a prefixed one
+		"P:a\nq:zzz\nV:1\n\n", "P:a\ns:1\nf:x\nz:y\n\n", "P:a\nZ:Q1xx\nX:1\n\n", "P:a\nV:1\nV:2\n\n", "P:a\nt:5\nt:7\n\n", "P:a\nD:x y\nD:\n\n", "P:a\nC:Q1AQID\nC:md5\n\n",
+		"P:a\nC:md5\nC:Q1AQID\n\n", "P:a\nr:x\nr:y z\n\n", "P:a\nF:d\nF:e\nM:1:2:0700\nR:f\nR:g\na:3:4:0600\n\n", "P:a\nS:1\nS:x\n\n", "P:a\nP:\n\n", "P:a\n?:x\n\n", "P:a\n :x\n\n"} {
 		readCase(w, t, "corpus", "hand-picked")
 	}
 	usersCase(w, []passwd.UserEntry{{UserName: "root", Password: "x", UID: 0, GID: 0, Info: "root", HomeDir: "/root", Shell: "/bin/sh"}}, "corpus")
@@ -738,7 +741,9 @@ func run(dir string, seed uint64, tier string) error {
 	// a member list [""] (one member, the empty name) is written like the empty list: the format cannot carry it, it is outside the quantifier
 	groupsCase(w, []passwd.GroupEntry{{GroupName: "g", Password: "", GID: 1<<32 - 1, Members: []string{"", "a"}}}, "corpus")
 	for _, t := range []string{"", "\n", "root:x:0:0:root:/root:/bin/sh\n", "root:x:0:0:root:/root:/bin/sh", "a:b:c\n", "g:x:5:\n", "g:x:5:a,b\n", "g:x:-1:a\n", "g:x:4294967296:a\n",
-		"u:x:4294967297:-1:i:h:s\n", "  u:x:1:2:i:h:s  \n", "u:x:1:2:i:h:s\r\n", "u:x:+1:2:i:h:s\n", "u:x:1:2:i:h:s:extra\n", "u:x:9223372036854775808:2:i:h:s\n", "\t\n", "g:x:5:,\n", "g:x::\n"} {
+		"u:x:4294967297:-1:i:h:s\n", "  u:x:1:2:i:h:s  \n", "u:x:1:2:i:h:s\r\n", "u:x:+1:2:i:h:s\n", "u:x:1:2:i:h:s:extra\n", "u:x:9223372036854775808:2:i:h:s\n", "\t\n", "g:x:5:,\n", "g:x::\n",
+		// part counts: a trailing colon, a missing field, a colon inside a field
+		"u:x:1:2:i:h:s:\n", "u:x:1:2:i:h\n", "u:x:1:2:i:/h:o:me:s\n", ":::::::\n", "::::::\n", "u:x:1:2:i:h:s \t\n", "g:x:5:a:b\n", "g:x:5\n", ":::\n", "g:x:5:a,,b,\n", "g:x:5: a , b \n"} {
 		pwReadCase(w, t, "corpus")
 	}
 
